@@ -26,7 +26,7 @@ meta = {
     "property": pid,
     "property_title": props[pid]["title"],
     "origin": "independent sub-agent given only the property text and its own git worktree of /repo (no access to /verif)",
-    "base_commit": "4609ca0",
+    "base_commit": os.environ.get("SEED_BASE", "4609ca0"),
     "needs_to_manifest": needs,
     "confirmed": {
         "how": "scripts/confirm_seeded.sh in a fresh worktree at base_commit: demonstration passes without the change; with the change `go build ./...` (root, lib/go, lib/go -tags verif) succeeds, the repository's tests (lib/go and ./compiler/...) pass unedited, the demonstration fails",
